@@ -206,6 +206,24 @@ func shapeDoc(f M, did string) *didtypes.DIDDocument {
 	pub := map[string]string{"b58": key.B58, "nonb58": "0OIl", "empty": "", "b58short": "2"}[str(f, "pubkey")]
 	vm := &didtypes.VerificationMethod{Id: vmid, Type: ktype, Controller: id, PublicKeyBase58: pub}
 	doc := &didtypes.DIDDocument{Id: id, VerificationMethods: []*didtypes.VerificationMethod{vm}}
+	relOne := func(kind string) didtypes.VerificationRelationship {
+		switch kind {
+		case "ref":
+			return didtypes.NewVerificationRelationship(vmid)
+		case "dangling":
+			return didtypes.NewVerificationRelationship(id + "#zzz")
+		case "refforeign":
+			return didtypes.NewVerificationRelationship(other + "#k")
+		case "ded":
+			return didtypes.NewVerificationRelationshipDedicated(didtypes.VerificationMethod{Id: id + "#d1", Type: didtypes.ES256K_2019, Controller: id, PublicKeyBase58: key.B58})
+		case "dedbadkey":
+			return didtypes.NewVerificationRelationshipDedicated(didtypes.VerificationMethod{Id: id + "#d2", Type: didtypes.ES256K_2019, Controller: id, PublicKeyBase58: "0OIl"})
+		}
+		return didtypes.VerificationRelationship{} // nilcontent
+	}
+	if parts := strings.Split(str(f, "rel"), "_"); len(parts) == 2 {
+		doc.Authentications = []didtypes.VerificationRelationship{relOne(parts[0]), relOne(parts[1])}
+	}
 	switch str(f, "rel") {
 	case "ref":
 		doc.Authentications = []didtypes.VerificationRelationship{didtypes.NewVerificationRelationship(vmid)}
@@ -255,6 +273,12 @@ func shapeDoc(f M, did string) *didtypes.DIDDocument {
 		doc.Services = []*didtypes.Service{svc("s1", "T", "https://e")}
 	case "two":
 		doc.Services = []*didtypes.Service{svc("s1", "T", "https://e"), svc("s2", "T", "https://f")}
+	case "two_secondnoid":
+		doc.Services = []*didtypes.Service{svc("s1", "T", "https://e"), svc("", "T", "https://f")}
+	case "two_secondnotype":
+		doc.Services = []*didtypes.Service{svc("s1", "T", "https://e"), svc("s2", "", "https://f")}
+	case "two_firstnoendpoint":
+		doc.Services = []*didtypes.Service{svc("s1", "T", ""), svc("s2", "T", "https://f")}
 	case "noid":
 		doc.Services = []*didtypes.Service{svc("", "T", "https://e")}
 	case "notype":
